@@ -14,6 +14,11 @@ mod errors;
 mod keyring;
 
 mod c01;
+mod c02;
+mod c03;
+mod c04;
+mod cli;
+mod edits;
 mod ctx;
 mod ioscript;
 mod kio;
@@ -81,6 +86,9 @@ fn main() {
 
     match prop.as_str() {
         "C01" => c01::run(&ctx),
+        "C02" => c02::run(&ctx),
+        "C03" => c03::run(&ctx),
+        "C04" => c04::run(&ctx),
         _ => {
             eprintln!("kmon: unknown property {}", prop);
             std::process::exit(2);
